@@ -39,6 +39,7 @@ type arRef struct {
 	Name  string `json:"name"`  // as written after $
 	Terms []int  `json:"terms"` // terminals (compiled numbering) whose tokens make up the referenced element
 	Val   string `json:"val"`   // term nonterm mixed none: what $x evaluates to, if emitted
+	Occ   int   `json:"occ"` // form "occ": the occ-th (0-based) occurrence of the terminal in the rule instance
 	Star  bool  `json:"star"` // a nullable list: present (and empty) when it has no tokens - any position is accepted then
 	HTerms []int `json:"hterms"` // those of Terms that belong to helper nonterminals (their value is 1000 + offset)
 }
@@ -91,6 +92,7 @@ type arGen struct {
 	nextH   int
 	nextN   int
 	helpers map[int]int // helper nonterminal -> its terminal
+	hasRep  bool
 }
 
 func (g *arGen) term() int  { g.nextT++; return g.nextT - 1 }
@@ -118,6 +120,10 @@ func (g *arGen) elem(d int) *arElem {
 		return g.single()
 	}
 	switch x := r.Intn(10); {
+	case d == 2 && x == 9 && r.Intn(2) == 0 && !g.hasRep:
+		// the same symbol several times: X X (X D)? - referenced as X#0, X#1, X#2
+		g.hasRep = true
+		return &arElem{K: "rep", T: g.term(), Sep: g.term() + 1}
 	case x < 4 || d == 0:
 		return g.single()
 	case x < 6:
@@ -171,6 +177,8 @@ func (e *arElem) render() string {
 		alias = "[" + e.Name + "]"
 	}
 	switch e.K {
+	case "rep":
+		return arTerm(e.T) + " " + arTerm(e.T) + " (" + arTerm(e.T) + " " + arTerm(e.Sep-1) + ")?"
 	case "sym":
 		return arTerm(e.T) + alias
 	case "nt":
@@ -213,6 +221,8 @@ func (e *arElem) render() string {
 // terminals (harness-level) whose tokens make up the element
 func (e *arElem) terms(helpers map[int]int, out *[]int) {
 	switch e.K {
+	case "rep":
+		*out = append(*out, e.T, e.Sep-1)
 	case "sym":
 		*out = append(*out, e.T)
 	case "nt":
@@ -258,6 +268,12 @@ func (e *arElem) collect(helpers map[int]int, byName map[string]*arRef, order *[
 		*order = append(*order, name)
 	}
 	switch e.K {
+	case "rep":
+		for k := 0; k < 3; k++ {
+			name := fmt.Sprintf("%s#%d", arTerm(e.T), k)
+			byName[name] = &arRef{Form: "occ", Name: name, Terms: []int{e.T}, Val: "none", Occ: k}
+			*order = append(*order, name)
+		}
 	case "sym":
 		if e.Name != "" {
 			add(e.Name, "term", e)
@@ -325,6 +341,8 @@ func (e *arElem) collect(helpers map[int]int, byName map[string]*arRef, order *[
 // positional references: every symbol and every list takes one position, in source order (the marker is position 0)
 func (e *arElem) positions(helpers map[int]int, pos *int, out *[]arRef) {
 	switch e.K {
+	case "rep":
+		*pos += 4
 	case "sym", "nt", "list":
 		var ts []int
 		e.terms(helpers, &ts)
@@ -341,6 +359,11 @@ func (e *arElem) positions(helpers map[int]int, pos *int, out *[]arRef) {
 // a random sentence of the element: tokens (harness-level terminals)
 func (e *arElem) sample(r *rand.Rand, helpers map[int]int, out *[]int) {
 	switch e.K {
+	case "rep":
+		*out = append(*out, e.T, e.T)
+		if r.Intn(2) == 0 {
+			*out = append(*out, e.T, e.Sep-1)
+		}
 	case "sym":
 		*out = append(*out, e.T)
 	case "nt":
@@ -499,6 +522,8 @@ func (c *arCase) render(helpers map[int]int, nterms int) string {
 			var args []string
 			for _, ref := range a.Refs {
 				switch ref.Form {
+				case "occ":
+					args = append(args, "${"+ref.Name+".offset}", "${"+ref.Name+".endoffset}")
 				case "name", "pos":
 					if ref.Val != "none" {
 						args = append(args, "$"+ref.Name)
